@@ -173,6 +173,21 @@ Theorem C04_pipeline_sample_is_real_transition : forall aenc ak (envs : list env
 Proof. exact offpolicy_pipeline. Qed.
 Print Assumptions C04_pipeline_sample_is_real_transition.
 
+(* the exhaustion flag of the learn() model: running out of fuel is flagged, and with a train frequency >= 1 the fuel supplied by
+   off_learn is never the reason - a set flag means that the oracle list was used up, a clear flag that the target was reached *)
+Theorem C04_out_of_fuel_is_flagged : forall ak sc ne tf total s,
+  l_nt s < total -> off_learn_loop 0 ak sc ne tf total s = (mkL (l_os s) (l_nt s) (l_orcs s) true, []).
+Proof. exact off_learn_loop_no_fuel. Qed.
+Print Assumptions C04_out_of_fuel_is_flagged.
+
+Theorem C04_flag_means_oracle_used_up : forall ak sc ne tf c os nt s l,
+  off_more tf 0 0 = true ->
+  off_learn ak sc ne tf c os nt = (s, l) ->
+  (l_exh s = true -> l_orcs s = []) /\
+  (l_exh s = false -> (if oc_reset c then oc_total c else oc_total c + nt) <= l_nt s).
+Proof. exact off_learn_flag. Qed.
+Print Assumptions C04_flag_means_oracle_used_up.
+
 (* ---- non-vacuity ---- *)
 Definition ex4_sc : script :=
   [mk_episode 10 0 [mk_sstep 11 4 false false 0; mk_sstep 12 (-8) false true 0];
